@@ -1574,3 +1574,107 @@ def gen_loops():
 if __name__ == '__main__':
     t, d = gen_loops()
     print(t['HeapOpsDefs'])
+
+
+# ------------------------------------------------------------------ _initialize_agents of the three space kinds
+def _uniform_defaults():
+    """keys of the default `low` / `high` of math/random.generate_uniform_random_number"""
+    f = find_function(f'{REPO}/opytimizer/math/random.py', 'generate_uniform_random_number')
+    try:
+        names = [a.arg for a in f.args.args]
+        defs = dict(zip(names[len(names) - len(f.args.defaults):], f.args.defaults))
+        return fkey(ast.literal_eval(defs['low'])), fkey(ast.literal_eval(defs['high']))
+    except Exception:
+        return None, None
+
+
+def read_init(fn):
+    b = lambda v: 'true' if v else 'false'
+    F = dict(perAgent=False, rows='.other', targetIsRowJ=False, low='.unknown', high='.unknown', sizeIsDims=False,
+             writesLb='none', writesUb='none', extraStmts=0)
+    show = lambda: '{ ' + ', '.join(f'{k} := {b(v) if isinstance(v, bool) else v}' for k, v in F.items()) + ' }'
+    if fn is None:
+        F['extraStmts'] = 1
+        return show()
+    stmts = [s for s in body_of(fn) if not (isinstance(s, ast.Expr) and isinstance(s.value, ast.Call) and ast.unparse(s.value.func).startswith('logger.'))]
+    if len(stmts) != 1 or not isinstance(stmts[0], ast.For) or ast.unparse(stmts[0].iter) != 'self.agents' or not isinstance(stmts[0].target, ast.Name) \
+            or stmts[0].orelse:
+        F['extraStmts'] = max(1, len(stmts))
+        return show()
+    F['perAgent'] = True
+    ag = stmts[0].target.id
+    inner = body_of(stmts[0])
+    if len(inner) != 1 or not isinstance(inner[0], ast.For) or inner[0].orelse:
+        F['extraStmts'] = max(1, len(inner))
+        return show()
+    lp = inner[0]
+    it, tg = ast.unparse(lp.iter), lp.target
+    j = fst = snd = None
+    if it == 'enumerate(zip(self.lb, self.ub))' and isinstance(tg, ast.Tuple) and len(tg.elts) == 2 and isinstance(tg.elts[0], ast.Name) \
+            and isinstance(tg.elts[1], ast.Tuple) and len(tg.elts[1].elts) == 2 and all(isinstance(e, ast.Name) for e in tg.elts[1].elts):
+        F['rows'] = '.zipBounds'
+        j, fst, snd = tg.elts[0].id, tg.elts[1].elts[0].id, tg.elts[1].elts[1].id
+    elif it == f'enumerate({ag}.position)' and isinstance(tg, ast.Tuple) and len(tg.elts) == 2 and isinstance(tg.elts[0], ast.Name):
+        F['rows'] = '.agentRows'
+        j = tg.elts[0].id
+    elif it in (f'range({ag}.n_variables)', f'range(len({ag}.position))') and isinstance(tg, ast.Name):
+        F['rows'] = '.agentRows'
+        j = tg.id
+    else:
+        F['extraStmts'] += 1
+        return show()
+    dlo, dhi = _uniform_defaults()
+
+    def dref(e):
+        if e is None:
+            return None
+        u = ast.unparse(e)
+        if fst and u == fst:
+            return '.zipFst'
+        if snd and u == snd:
+            return '.zipSnd'
+        return '.unknown'
+    for st in body_of(lp):
+        if isinstance(st, ast.Assign) and len(st.targets) == 1:
+            t = ast.unparse(st.targets[0])
+            v = st.value
+            if t == f'{ag}.position[{j}]' and isinstance(v, ast.Call) and ast.unparse(v.func) == 'r.generate_uniform_random_number' and not F['targetIsRowJ']:
+                F['targetIsRowJ'] = True
+                kw = {k.arg: k.value for k in v.keywords}
+                pos = list(v.args)
+                lo = pos[0] if len(pos) > 0 else kw.get('low')
+                hi = pos[1] if len(pos) > 1 else kw.get('high')
+                sz = pos[2] if len(pos) > 2 else kw.get('size')
+                key = lambda k: f'(.dflt {k})' if k is not None and k >= 0 else (f'(.dflt ({k}))' if k is not None else '.unknown')
+                F['low'] = dref(lo) if lo is not None else key(dlo)
+                F['high'] = dref(hi) if hi is not None else key(dhi)
+                F['sizeIsDims'] = sz is not None and ast.unparse(sz) == f'{ag}.n_dimensions'
+                continue
+            if t == f'{ag}.lb[{j}]' and F['writesLb'] == 'none':
+                F['writesLb'] = f'(some {dref(v)})'
+                continue
+            if t == f'{ag}.ub[{j}]' and F['writesUb'] == 'none':
+                F['writesUb'] = f'(some {dref(v)})'
+                continue
+        F['extraStmts'] += 1
+    return show()
+
+
+_old_gen_loops11 = gen_loops
+
+
+def gen_loops():
+    texts, data = _old_gen_loops11()
+    rows = [(n, read_init(find_method(f'{REPO}/opytimizer/spaces/{f}.py', c, '_initialize_agents')))
+            for n, f, c in (('searchInit', 'search', 'SearchSpace'), ('treeInit', 'tree', 'TreeSpace'), ('hyperInit', 'hyper', 'HyperSpace'))]
+    texts['InitDefs'] = '\n'.join(['-- GENERATED by harness/translate_loops.py from the _initialize_agents methods. Do not edit.',
+                                   'import OpyVerif.Model.InitProg', 'namespace Opy.Gen', 'open Opy', ''] +
+                                  [f'def {n} : InitLoop := {t}' for n, t in rows] + ['', 'end Opy.Gen', ''])
+    texts['Init'] = '\n'.join(['-- GENERATED by harness/translate_loops.py: obligations re-decided on every build. Do not edit.',
+                               'import OpyVerif.Generated.InitDefs', 'namespace Opy.Gen', 'open Opy',
+                               'theorem searchInit_eq : searchInit = Expected.searchInit := by decide +kernel',
+                               'theorem treeInit_eq : treeInit = Expected.searchInit := by decide +kernel',
+                               'theorem hyperInit_eq : hyperInit = Expected.hyperInit := by decide +kernel',
+                               'end Opy.Gen', ''])
+    data['init'] = dict(rows)
+    return texts, data
